@@ -6,9 +6,10 @@
 // channels (one inject per answer, or all answers in one read), with values that identify the call they answer.
 // Oracle = the property: each call returns exactly the values carried by the reply sent for it on its channel - never a value of another
 // channel or another round; nowait variants return without any reply.
-// Bound: 6 answer orders x 2 batching modes x 4 rounds of 3 overlapping calls.
+// Bound: 6 answer orders x 2 batching modes x 4 rounds of 3 overlapping calls; every nowait operation x its boolean options followed by
+// synchronous calls with distinguishable replies; every synchronous operation x its boolean options returns with its own reply.
 include!("/verif/witness/_common/live_broker.rs");
-use crate::{Auth, Channel, Connection, ConnectionOptions, ConnectionTuning, ConsumerOptions, QueueDeclareOptions, QueueDeleteOptions};
+use crate::{Auth, Channel, Connection, ConnectionOptions, ConnectionTuning, ConsumerOptions, ExchangeDeclareOptions, ExchangeType, QueueDeclareOptions, QueueDeleteOptions};
 use std::sync::Barrier;
 use std::thread;
 
@@ -117,4 +118,63 @@ fn verif_sweep_c04_overlapping_calls_get_their_own_replies() {
         }
     }
     println!("C04 sweep: {} scenarios", count);
+}
+
+// a nowait operation leaves no reply behind: whatever its options, the synchronous calls that follow get their own replies; and every
+// synchronous operation, whatever its options, returns with its own reply (the broker answers a request exactly when its no-wait bit is clear)
+fn probe(what: &str, ch: &Channel) {
+    let n = ch.channel_id() as u32;
+    ch.qos(0, 1, false).unwrap_or_else(|e| panic!("{}: the next synchronous call (qos) failed: {}", what, e));
+    assert_eq!(ch.queue_purge("p").unwrap_or_else(|e| panic!("{}: the next synchronous call (purge) failed: {}", what, e)), 1000 + n, "{}: purge got a reply that is not its own", what);
+    let q = ch.queue_declare("named", QueueDeclareOptions::default()).unwrap_or_else(|e| panic!("{}: the next synchronous call (declare) failed: {}", what, e));
+    assert_eq!(q.name(), "named", "{}: declare got a reply that is not its own", what);
+}
+
+fn run_nowait_then_sync() {
+    let ctl = Handle::new();
+    let mut connection = Connection::insecure_open_stream(LiveBroker::new(ctl.clone()), ConnectionOptions::<Auth>::default().heartbeat(0), ConnectionTuning::default()).expect("handshake");
+    let ch = connection.open_channel(Some(3)).unwrap();
+    for &a in &[false, true] {
+        for &b in &[false, true] {
+            let qd = QueueDeclareOptions { durable: a, exclusive: b, auto_delete: a ^ b, arguments: FieldTable::new() };
+            let xd = ExchangeDeclareOptions { durable: a, auto_delete: b, internal: a ^ b, arguments: FieldTable::new() };
+            let del = QueueDeleteOptions { if_unused: a, if_empty: b };
+            let what = format!("options ({}, {})", a, b);
+            std::mem::forget(ch.queue_declare_nowait("q", qd.clone()).unwrap());
+            probe(&format!("{}: after queue_declare_nowait", what), &ch);
+            ch.queue_bind_nowait("q", "x", "k", FieldTable::new()).unwrap();
+            probe(&format!("{}: after queue_bind_nowait", what), &ch);
+            ch.queue_purge_nowait("q").unwrap();
+            probe(&format!("{}: after queue_purge_nowait", what), &ch);
+            ch.queue_delete_nowait("q", del.clone()).unwrap();
+            probe(&format!("{}: after queue_delete_nowait", what), &ch);
+            std::mem::forget(ch.exchange_declare_nowait(ExchangeType::Direct, "x", xd.clone()).unwrap());
+            probe(&format!("{}: after exchange_declare_nowait", what), &ch);
+            ch.exchange_bind_nowait("d", "s", "k", FieldTable::new()).unwrap();
+            probe(&format!("{}: after exchange_bind_nowait", what), &ch);
+            ch.exchange_unbind_nowait("d", "s", "k", FieldTable::new()).unwrap();
+            probe(&format!("{}: after exchange_unbind_nowait", what), &ch);
+            ch.exchange_delete_nowait("x", a).unwrap();
+            probe(&format!("{}: after exchange_delete_nowait(if_unused={})", what, a), &ch);
+            // the synchronous variants return, each with its own reply
+            std::mem::forget(ch.queue_declare("q", qd).unwrap_or_else(|e| panic!("{}: queue_declare: {}", what, e)));
+            ch.queue_bind("q", "x", "k", FieldTable::new()).unwrap_or_else(|e| panic!("{}: queue_bind: {}", what, e));
+            ch.queue_unbind("q", "x", "k", FieldTable::new()).unwrap_or_else(|e| panic!("{}: queue_unbind: {}", what, e));
+            assert_eq!(ch.queue_delete("q", del).unwrap_or_else(|e| panic!("{}: queue_delete: {}", what, e)), 2003, "{}: queue_delete", what);
+            std::mem::forget(ch.exchange_declare(ExchangeType::Fanout, "x", xd).unwrap_or_else(|e| panic!("{}: exchange_declare: {}", what, e)));
+            ch.exchange_bind("d", "s", "k", FieldTable::new()).unwrap_or_else(|e| panic!("{}: exchange_bind: {}", what, e));
+            ch.exchange_unbind("d", "s", "k", FieldTable::new()).unwrap_or_else(|e| panic!("{}: exchange_unbind: {}", what, e));
+            ch.exchange_delete("x", a).unwrap_or_else(|e| panic!("{}: exchange_delete(if_unused={}): {}", what, a, e));
+            probe(&format!("{}: after the synchronous variants", what), &ch);
+        }
+    }
+    ch.enable_publisher_confirms_nowait().unwrap();
+    probe("after enable_publisher_confirms_nowait", &ch);
+    std::mem::forget(ch);
+    connection.close().unwrap();
+}
+
+#[test]
+fn verif_sweep_c04_nowait_operations_leave_no_reply_behind() {
+    with_watchdog("nowait operations followed by synchronous calls".to_string(), 30, run_nowait_then_sync);
 }
